@@ -82,6 +82,23 @@ def run(ctx):
                                   {"cfg": r.cfg, "resumed_from": p["iteration"]})
             else:
                 ctx.violation(f"resume-raises:{r2.error[0]}", f"resuming from iteration {p['iteration']} raised {r2.error[:2]}", {"cfg": r.cfg})
+    # resuming a FINISHED run from its final checkpoint (re-running a completed job): the history must still hold the population
+    # after every iteration, not the enlarged final one in their place
+    finished = [r for r in runs if r.error is None and r.cfg["kind"] != "emcee_smc" and any(p["forced"] and p["bytes"] is not None for p in r.payloads)]
+    finished.sort(key=lambda r: 0 if r.cfg["sample_kwargs"].get("n_final_samples") else 1)      # runs with a final enlargement first
+    for r in finished[: ctx.scale(6, 30)]:
+        fin = [p for p in r.payloads if p["forced"] and p["bytes"] is not None][-1]
+        r2 = sr.do_run(r.cfg, resume_from=fin["bytes"], vid0=10000)
+        ctx.count(("resumed-final", r.cfg["seed"]), True, kind="resumed/from-the-final-checkpoint")
+        if r2.error is not None:
+            ctx.violation(f"resume-raises:final:{r2.error[0]}", f"resuming from the final checkpoint raised {r2.error[:2]}", {"cfg": r.cfg})
+            continue
+        check_history(ctx, r2, "resumed-final", resumed_from="final")
+        s1 = [len(nsutil.to_list(p.log_likelihood)) for p in r.history.sample_history]
+        s2 = [len(nsutil.to_list(p.log_likelihood)) for p in r2.history.sample_history]
+        if s1 != s2:
+            ctx.violation("stored-populations:resumed-final", f"stored population sizes after resuming the finished run {s2} != those of the run itself {s1}",
+                          {"cfg": r.cfg, "n_final_samples": r.cfg["sample_kwargs"].get("n_final_samples")})
     # a run that was really interrupted (exception in a user call) and resumed from the dictionary its callback kept: the history of
     # the resumed run must be as faithful a record as any other (one entry per iteration, no temperature repeated)
     nlive = 0
